@@ -577,7 +577,7 @@ impl Check for C03 {
     type Case = Case;
     const ID: &'static str = "C03";
     fn runs(t: Tier) -> u64 {
-        t.pick(12_000, 1_000_000)
+        t.pick(40_000, 2_000_000)
     }
     fn worker_init() {
         // learn the constant-size reservations of the implementation on a benign input
